@@ -78,7 +78,7 @@ def generate(rng, tier, index):
                     items.append([img, rng.randrange(2),
                                   select.gen_selection(rng, im["lines"], im["pixels"])])
                 actors.append({"items": items})
-            sets.append({"scenario": scenario, "actors": actors})
+            sets.append({"scenario": scenario, "actors": actors, "fresh": rng.random() < 0.3})
             continue
         for a in range(n_act):
             if scenario == "same-variable":
@@ -98,7 +98,7 @@ def generate(rng, tier, index):
                 if (im0["lines"], im0["pixels"]) == (im["lines"], im["pixels"]):
                     sels = actors[0]["selections"]
             actors.append({"image": img, "copy": copy, "selections": sels})
-        sets.append({"scenario": scenario, "actors": actors})
+        sets.append({"scenario": scenario, "actors": actors, "fresh": rng.random() < 0.25})
     k = 12 if tier == "quick" else 40
     modes = ["random", "random", "random", "pct", "line"] if tier == "quick" else \
         ["random", "random", "pct", "line"]
@@ -256,18 +256,35 @@ def execute(plan):
                                                         "load-in-another-thread", {
                                 "selection": sel, "scenario": aset["scenario"], "error": detail}))
                             continue
-                        good.append((da, sel, ref_vals))
+                        good.append(((img_k, copy_k), sel, ref_vals))
                 if good:
                     jobs.append(good)
             if len(jobs) < 2:
                 bump("actor-set-skipped")
                 continue
+            fresh = bool(aset.get("fresh")) and not plan.get("systematic")
             for j, sched, mode in _schedules(plan, si, 2000 + 10 * solo_events, stats):
                 if only is not None and only[1] != j and not plan.get("systematic"):
                     continue
+                trees = copies
+                if fresh and j < 4:
+                    # tree objects nobody has loaded from yet: whatever the library sets up on
+                    # first use is set up by the concurrent loads themselves
+                    try:
+                        tf = w.open(use_cache=False, records_per_chunk=plan["rpc"])
+                        trees = {0: tf, 1: pickle.loads(pickle.dumps(tf))}
+                        bump("fresh-trees")
+                    except Exception as e:  # noqa: BLE001
+                        violations.append(Violation(ID, "load-raised", "fresh-open", {
+                            "error": exc_text(e), "set": si}))
+                        break
                 for ai, good in enumerate(jobs):
-                    def work(good=good):
-                        return [select.apply(da, sel).load().values for da, sel, _ in good]
+                    def work(good=good, trees=trees):
+                        out = []
+                        for (img_k, copy_k), sel, _ in good:
+                            da = trees[copy_k]["imagery"][prod.groups[prod.images[img_k]]]["data"]
+                            out.append(select.apply(da, sel).load().values)
+                        return out
                     sched.spawn("L%d" % ai, work)
                 mark = SIM.mark()
                 try:
